@@ -32,7 +32,7 @@ import math
 from ..interp import Interp, World, Obj, PyVec, Sym, ThrowEx, NOT_HANDLED, Ref, ElemRef
 from .. import ratfun, ndsym
 from ..ratfun import Dual
-from ..ndsym import NDArr, Uninit, is_arr, ShapeMismatch
+from ..ndsym import NDArr, Uninit, is_arr, ShapeMismatch, IndexOutside
 from ..sir import pp, strip, AnalysisBroken, const_value
 from .C14 import ADIWorld, ArrRef, scalar, UninitUse, sym_array
 
@@ -60,6 +60,16 @@ class EdgeMap:
         return self
 
 
+class OrderedSet:
+    """std::set of comparable values (pairs of node ids): kept sorted, iterated in order"""
+
+    def __init__(self):
+        self.items = []
+
+    def __deepcopy__(self, memo):
+        return self
+
+
 class NodeSet:
     def __init__(self):
         self.items = []
@@ -75,9 +85,9 @@ class MeshWorld(ADIWorld):
         self.roots = []          # (symbol, argument) of every square root taken
         self.reverse_iteration = False
         eq = [f for f in unit.fns.values() if f.bn == "fastscapelib::detail::tri_edge_equal::operator()"]
-        if not eq:
-            raise AnalysisBroken("C18: tri_edge_equal::operator() not instantiated")
-        self.equal_fn = eq[0]
+        # (absent when the construction code no longer uses the custom edge map: then M1 alone
+        #  decides the connectivity, whatever container the code uses)
+        self.equal_fn = eq[0] if eq else None
 
     def sym_unop(self, op, a):
         if op == "sqrt":
@@ -111,12 +121,16 @@ class MeshWorld(ADIWorld):
         if isinstance(v, NodeSet):
             seq = list(v.items)
             return seq[::-1] if self.reverse_iteration else seq
+        if isinstance(v, OrderedSet):
+            return list(v.items)            # a std::set iterates in key order
         return NOT_HANDLED
 
     def default_value(self, it, ts):
         base = ts.replace("const ", "").strip()
         if base.startswith("std::unordered_set<"):
             return NodeSet()
+        if base.startswith("std::set<"):
+            return OrderedSet()
         if base.startswith("std::unordered_map<") and "tri_edge" in base:
             return EdgeMap(self.equal_fn)
         if base.startswith("xt::xtensor_container<"):
@@ -137,6 +151,8 @@ class MeshWorld(ADIWorld):
                 return EdgeMap(self.equal_fn)
             if ts.startswith("std::unordered_set<") and not args:
                 return NodeSet()
+            if ts.startswith("std::set<") and not args:
+                return OrderedSet()
             if ts.startswith("xt::xtensor_container<"):
                 if not args:
                     return NDArr((0,), None, "xtensor")
@@ -163,7 +179,12 @@ class MeshWorld(ADIWorld):
         if bn == "xt::flatten":
             return ndsym.flatten(V(0))
         if bn == "xt::bincount":
-            idx, w, n = V(0), V(1), V(2)
+            idx, w = V(0), V(1)
+            if len(args) > 2:
+                n = V(2)
+            else:
+                # no minimum length: one bin per index up to the largest one used
+                n = 1 + max([idx.get(k) for k in idx.indices()] or [-1])
             if tuple(idx.shape) != tuple(w.shape):
                 raise ShapeMismatch("bincount: %r indices and %r weights" % (idx.shape, w.shape))
             out = NDArr((n,), 0, "bincount")
@@ -172,7 +193,9 @@ class MeshWorld(ADIWorld):
                 if not isinstance(i, int) or i < 0:
                     raise AnalysisBroken("C18: bincount index %r" % (i,))
                 if i >= n:
-                    raise AnalysisBroken("C18: bincount index %d beyond minlength %d" % (i, n))
+                    # (xt::bincount grows the result to the largest index)
+                    out.shape = (i + 1,)
+                    n = i + 1
                 out.data[(i,)] = scalar("+", out.get((i,)), w.get(k))
             return out
         if obj is not None:
@@ -192,6 +215,24 @@ class MeshWorld(ADIWorld):
                     return len(o.entries)
             if isinstance(o, Entry) and name in ("operator->", "operator*"):
                 return o
+            if isinstance(o, OrderedSet):
+                if name in ("insert", "emplace"):
+                    v = V(0) if len(args) == 1 else tuple(V(i) for i in range(len(args)))
+                    v = tuple(v) if isinstance(v, (list, PyVec)) else v
+                    fresh = v not in o.items
+                    if fresh:
+                        o.items.append(v)
+                        o.items.sort()
+                    return (v, fresh)
+                if name == "count":
+                    v = V(0)
+                    v = tuple(v) if isinstance(v, (list, PyVec)) else v
+                    return 1 if v in o.items else 0
+                if name == "size":
+                    return len(o.items)
+                if name == "clear":
+                    del o.items[:]
+                    return None
             if isinstance(o, NodeSet):
                 if name == "clear":
                     del o.items[:]
@@ -348,47 +389,57 @@ def run(db, chk):
 
     # ---------------------------------------------------------------------------------- M2
     w = MeshWorld(unit)
-    bad = []
-    n_pairs = 0
-    for a, b, c, d in itertools.product(range(3), repeat=4):
-        it = Interp(w)
-        got = it.truth(it.call_fn(w.equal_fn, Obj("fastscapelib::detail::tri_edge_equal", {}), [(a, b), (c, d)]))
-        want = (a, b) == (c, d) or (a, b) == (d, c)
-        n_pairs += 1
-        if got != want:
-            bad.append("equal((%d,%d),(%d,%d)) = %s" % (a, b, c, d, got))
-    chk.ob("C18-M2", "tri_edge_equal on all %d pairs of keys over three node ids" % n_pairs, not bad,
-           where=w.equal_fn.ploc, function=w.equal_fn.bn, construct="edge-equal", detail="; ".join(bad[:3]))
-    hs = [f for f in unit.fns.values() if f.bn == "fastscapelib::detail::tri_edge_hash::operator()"]
-    if not hs:
-        raise AnalysisBroken("C18: tri_edge_hash::operator() not instantiated")
+    if w.equal_fn is None:
+        uses_map = any("tri_edge" in unit.type(n.get("t")) for n in walk(set_nb.body) if n.get("t") is not None)
+        if uses_map:
+            raise AnalysisBroken("C18: the edge map is used but tri_edge_equal::operator() is not instantiated")
+        for what in ("equality", "hash"):
+            chk.ob("C18-M2", "the custom edge-map %s functor is no longer used by set_neighbors: orientation-"
+                   "insensitivity is decided through C18-M1 alone" % what, True, where=set_nb.ploc,
+                   function=set_nb.bn, construct="edge-%s-unused" % what)
+    else:
+        bad = []
+        n_pairs = 0
+        for a, b, c, d in itertools.product(range(3), repeat=4):
+            it = Interp(w)
+            got = it.truth(it.call_fn(w.equal_fn, Obj("fastscapelib::detail::tri_edge_equal", {}), [(a, b), (c, d)]))
+            want = (a, b) == (c, d) or (a, b) == (d, c)
+            n_pairs += 1
+            if got != want:
+                bad.append("equal((%d,%d),(%d,%d)) = %s" % (a, b, c, d, got))
+        chk.ob("C18-M2", "tri_edge_equal on all %d pairs of keys over three node ids" % n_pairs, not bad,
+               where=w.equal_fn.ploc, function=w.equal_fn.bn, construct="edge-equal", detail="; ".join(bad[:3]))
+        hs = [f for f in unit.fns.values() if f.bn == "fastscapelib::detail::tri_edge_hash::operator()"]
+        if not hs:
+            raise AnalysisBroken("C18: tri_edge_hash::operator() not instantiated")
 
-    class HashWorld(World):
-        def external(self, it, fn, call, frame):
-            if (call.get("bn") or "").startswith("std::hash"):
-                if call.get("k") == "construct":
-                    return Obj("std::hash", {})
-                v = it.rv(it.eval(call["a"][0], frame))
-                return Sym("h", "h(%r)" % (v,))
-            return NOT_HANDLED
+        class HashWorld(World):
+            def external(self, it, fn, call, frame):
+                if (call.get("bn") or "").startswith("std::hash"):
+                    if call.get("k") == "construct":
+                        return Obj("std::hash", {})
+                    v = it.rv(it.eval(call["a"][0], frame))
+                    return Sym("h", "h(%r)" % (v,))
+                return NOT_HANDLED
 
-        def sym_binop(self, op, a, b):
-            if op in ("^", "+", "*", "|", "&"):     # commutative combiners
-                return Sym("h", "%s{%s}" % (op, ",".join(sorted([repr(getattr(a, "tag", a)), repr(getattr(b, "tag", b))]))))
-            raise AnalysisBroken("C18: hash combines with the non-commutative operator %s" % op)
-    bad = []
-    try:
-        vals = {}
-        for key in ((1, 2), (2, 1)):
-            it = Interp(HashWorld())
-            r = it.rv(it.call_fn(hs[0], Obj("fastscapelib::detail::tri_edge_hash", {}), [key]))
-            vals[key] = getattr(r, "tag", r)
-        if vals[(1, 2)] != vals[(2, 1)]:
-            bad.append("hash((1,2)) = %r but hash((2,1)) = %r" % (vals[(1, 2)], vals[(2, 1)]))
-    except AnalysisBroken as ex:
-        bad.append(str(ex))
-    chk.ob("C18-M2", "tri_edge_hash gives both orientations of an edge the same bucket (symbolic)", not bad,
-           where=hs[0].ploc, function=hs[0].bn, construct="edge-hash", detail="; ".join(bad[:2])[:300])
+            def sym_binop(self, op, a, b):
+                if op in ("^", "+", "*", "|", "&"):     # commutative combiners
+                    return Sym("h", "%s{%s}" % (op, ",".join(sorted([repr(getattr(a, "tag", a)), repr(getattr(b, "tag", b))]))))
+                raise AnalysisBroken("C18: hash combines with the non-commutative operator %s" % op)
+        bad = []
+        try:
+            vals = {}
+            for key in ((1, 2), (2, 1)):
+                it = Interp(HashWorld())
+                r = it.rv(it.call_fn(hs[0], Obj("fastscapelib::detail::tri_edge_hash", {}), [key]))
+                vals[key] = getattr(r, "tag", r)
+            if vals[(1, 2)] != vals[(2, 1)]:
+                bad.append("hash((1,2)) = %r but hash((2,1)) = %r" % (vals[(1, 2)], vals[(2, 1)]))
+        except AnalysisBroken as ex:
+            bad.append(str(ex))
+        chk.ob("C18-M2", "tri_edge_hash gives both orientations of an edge the same bucket (symbolic)", not bad,
+               where=hs[0].ploc, function=hs[0].bn, construct="edge-hash", detail="; ".join(bad[:2])[:300])
+
 
     # ---------------------------------------------------------------------------------- M1
     thorough = chk.tier == "thorough"
@@ -400,7 +451,7 @@ def run(db, chk):
             if key not in seen:
                 seen.add(key)
                 meshes.append(m)
-    for (n, tris0) in meshes:
+    for (n, tris0) in (meshes if chk.want("C18-M1") else ()):
         nb_want, boundary_want = spec(n, tris0)
         bad = []
         n_var = 0
@@ -479,7 +530,7 @@ def run(db, chk):
     cases.append((3, [[0, 1, 2]], "single flat (very obtuse) triangle: negative circumcentric shares", FLAT))
     cases.append((3, [[1, 0, 2]], "single flat (very obtuse) triangle, clockwise", FLAT))
     cases.append((4, [[0, 1, 2], [1, 0, 3]], "flat triangle on top of an acute one", FLAT))
-    for case in cases:
+    for case in (cases if chk.want("C18-M3") else ()):
         (n, tris, label) = case[:3]
         n_sc += 1
         w = MeshWorld(unit)
@@ -492,7 +543,7 @@ def run(db, chk):
         try:
             it.call_fn(set_nb, this, [pts, tarr])
             it.call_fn(set_ar, this, [pts, tarr])
-        except (ThrowEx, UninitUse, ShapeMismatch) as ex:
+        except (ThrowEx, UninitUse, ShapeMismatch, IndexOutside) as ex:
             bad.append(str(ex))
         if not bad:
             areas = this.fields["m_nodes_areas"]
@@ -532,7 +583,9 @@ def run(db, chk):
             if not bad:
                 tiny = Dual.of(2.2250738585072014e-308)
                 acc = Dual.of(0)
-                for i in range(n):
+                if tuple(areas.shape) != (n,):
+                    bad.append("the node-area buffer has shape %r for %d nodes" % (tuple(areas.shape), n))
+                for i in (range(n) if not bad else ()):
                     got = areas.get((i,))
                     if isinstance(got, Uninit):
                         bad.append("area of node %d is uninitialised" % i)
